@@ -8,7 +8,7 @@
 
 use crate::framework::{guarded, panic_class, Outcome, Scenario, Stats, Violation};
 use crate::prng::{digest_of, mix, tag_of, Fnv, Rng};
-use crate::workload::{cells_of, draw_op, exec_op, op_from, op_json, shrink_op, WOp};
+use crate::workload::{cells_of, draw_op, draw_op_with, exec_op, op_from, op_json, shrink_op, WOp};
 use serde_json::{json, Value};
 
 #[derive(Clone, Debug, Hash, PartialEq, Eq)]
@@ -26,7 +26,7 @@ pub fn transcript(seed: u64, count: u64) -> (Vec<String>, u64) {
     let mut f = Fnv::new();
     for i in 0..count {
         let mut r = Rng::new(mix(seed, tag_of("c07transcript"), i));
-        let op = draw_op(&mut r);
+        let op = draw_op_with(&mut r, false);
         let line = match guarded(|| exec_op(&op)) {
             Ok(s) => s,
             Err(p) => format!("PANIC {}", panic_class(&p)),
@@ -39,7 +39,7 @@ pub fn transcript(seed: u64, count: u64) -> (Vec<String>, u64) {
 }
 pub fn transcript_op_json(seed: u64, i: u64) -> Value {
     let mut r = Rng::new(mix(seed, tag_of("c07transcript"), i));
-    op_json(&draw_op(&mut r))
+    op_json(&draw_op_with(&mut r, false))
 }
 
 #[cfg(feature = "hooks")]
@@ -235,24 +235,40 @@ pub fn race(seed: u64, threads: usize, ops_per_thread: usize) -> Result<(u64, Ve
         }
         per.push(ops);
     }
+    let shared = crate::workload::Shared::new(r.next_u64());
+    let shops: Vec<Vec<(u8, u8)>> = (0..threads).map(|_| (0..2).map(|_| (r.below(3) as u8, if r.chance(1, 2) { 30 } else { r.below(32) as u8 })).collect()).collect();
     let barrier = std::sync::Barrier::new(threads);
     let got: Vec<Vec<String>> = std::thread::scope(|sc| {
         let hs: Vec<_> = per
             .iter()
-            .map(|ops| {
+            .zip(shops.iter())
+            .map(|(ops, so)| {
                 let b = &barrier;
+                let sh = &shared;
                 sc.spawn(move || {
                     b.wait();
-                    ops.iter().map(exec_op).collect::<Vec<String>>()
+                    // concurrent finalize calls on generators shared by all threads, then the thread's own first calls
+                    let mut out: Vec<String> = so.iter().map(|(w, o)| sh.finalize(*w, *o)).collect();
+                    out.extend(ops.iter().map(exec_op));
+                    out
                 })
             })
             .collect();
         hs.into_iter().map(|h| h.join().expect("race task panicked")).collect()
     });
     let mut f = Fnv::new();
+    for (t, so) in shops.iter().enumerate() {
+        for (i, (w, o)) in so.iter().enumerate() {
+            let want = shared.finalize(*w, *o);
+            if got[t][i] != want {
+                return Err(format!("thread {t} concurrent finalize #{i} of shared generator {w} (options {o}) returned `{}`, sequential `{want}`", got[t][i]));
+            }
+        }
+    }
     for (t, ops) in per.iter().enumerate() {
         for (i, op) in ops.iter().enumerate() {
             let want = exec_op(op);
+            let i = i + shops[t].len();
             f.write(want.as_bytes());
             if got[t][i] != want {
                 return Err(format!("thread {t} op #{i} {}: racing first call returned `{}`, sequential `{}`", op_json(op), got[t][i], want));
